@@ -119,9 +119,15 @@ fn main() {
         let op1 = args[2].clone();
         let op2 = args[3].clone();
         let iters: usize = args[4].parse().unwrap();
-        let a: &'static kani_alloc::AllocT = Box::leak(Box::new(kani_alloc::AllocT::new(1 << 30)));
+        let limit: usize = args.get(5).map(|x| x.parse().unwrap()).unwrap_or(1 << 30);
+        let a: &'static kani_alloc::AllocT = Box::leak(Box::new(kani_alloc::AllocT::new(limit)));
+        // bytes the workers hold right now, counted after a grant and before the release: never more than the
+        // allocator's true usage, so seeing it above the limit proves the limit was exceeded
+        let live: &'static std::sync::atomic::AtomicUsize = Box::leak(Box::new(std::sync::atomic::AtomicUsize::new(0)));
+        let over: &'static std::sync::atomic::AtomicUsize = Box::leak(Box::new(std::sync::atomic::AtomicUsize::new(0)));
         let worker = move |op: String, size: usize| {
             move || unsafe {
+                use std::sync::atomic::Ordering::SeqCst;
                 let mut bad_peak = 0usize;
                 for _ in 0..iters {
                     let l = Layout::from_size_align(size, 1).unwrap();
@@ -129,9 +135,14 @@ fn main() {
                     if p.is_null() {
                         continue;
                     }
+                    if live.fetch_add(size, SeqCst) + size > limit {
+                        over.fetch_add(1, SeqCst);
+                    }
                     if a.get_max() < size {
                         bad_peak += 1;
                     }
+                    std::hint::spin_loop();
+                    live.fetch_sub(size, SeqCst);
                     if op == "realloc" {
                         let q = a.realloc(p, l, size * 2);
                         if q.is_null() {
@@ -151,7 +162,8 @@ fn main() {
         let b1 = t1.join().unwrap();
         let b2 = t2.join().unwrap();
         let (u, peak) = usage_of(a);
-        println!("{{\"outcome\":\"ok\",\"used_at_quiescence\":{},\"peak\":{},\"bad_peak_observations\":{}}}", u, peak, b1 + b2);
+        println!("{{\"outcome\":\"ok\",\"used_at_quiescence\":{},\"peak\":{},\"bad_peak_observations\":{},\"limit\":{},\"over_limit_observations\":{}}}",
+                 u, peak, b1 + b2, limit, over.load(std::sync::atomic::Ordering::SeqCst));
         return;
     }
     let name = &args[1];
